@@ -216,6 +216,13 @@ def generate(run_seed, tier):
         n = rw.randint(1, rw.choice([3, 8, 20, 40]))
         p_hot = rw.choice([0.0, 0.05, 0.2])
         frames = gen_forward_frames(rw, fmt, n, p_hot)
+        if rw.random() < 0.25:
+            out = []
+            for f in frames:
+                out.append(f)
+                if rw.random() < 0.3:
+                    out.append(dict(f))
+            frames = out
     st = wire.serialise(fmt, frames)
     L = len(st.data)
     # pieces
